@@ -19,7 +19,7 @@ EXPLANATION = (
     "(D1) abstract interpretation (AI-SHAPE, sa/shapes.py) of the bodies of MathArray.__add__/__radd__/__sub__/__rsub__/"
     "__mul__/__rmul__/__truediv__/__rtruediv__/__pow__/__rpow__, the five in-place forms (which must return the new value and never store into self) and robust_pow over operand "
     "descriptors (number classes 0 / int / integer-valued float / non-integer / negative / complex; vectors n and m, "
-    "matrices nxn (regular and singular), mxm, nxm, mxn, 1xn, nx1, tensors; size-1 arrays; foreign objects) under Python's "
+    "matrices nxn (regular and singular), mxm, nxm, mxn, 1xn, nx1, tensors; single-entry arrays of 0-3 axes, which must act as the number they hold without changing the result's shape; foreign objects) under Python's "
     "operator dispatch with a model table for ndarray's elementwise methods, np.dot and np.linalg.matrix_power; the "
     "outcome (raise class | result shape and symbolic value) of every operand pair is compared with reference table A6; "
     "(D2) the same interpreter runs MathExpression.eval_product over all operand-kind chains of length <= 4 and compares "
@@ -30,7 +30,7 @@ EXPLANATION = (
     "through cast_np_numeric_as_builtin, every intermediate product of eval_product is cast before it is used as a left "
     "operand, and the cast turns every numpy scalar kind into a builtin number.")
 NOT_DECIDED = ("the numeric values numpy returns for conforming operands (np.dot, matrix_power, elementwise arithmetic are "
-               "a model table); rows of A6 with size-1 arrays, foreign objects or division by the number 0 (don't-care); "
+               "a model table); rows of A6 with two single-entry arrays, foreign objects or division by the number 0 (don't-care); "
                "eval_variable's int->float conversion (no shape consequence); that eval_sum/eval_power/eval_negation fold "
                "through the Python operators (C03).")
 ASSUMPTIONS = ["numpy: ndarray.__op__ broadcasts, np.dot contracts the last axis of a with the second-to-last of b and returns "
@@ -71,8 +71,10 @@ def arrays(name):
 
 
 def small_arrays(name):
-    return [S.Arr((), name=name, item=S.N(0)), S.Arr((), name=name, item=S.N(2.5)), S.Arr((1,), name=name, item=S.N(2.5)),
-            S.Arr((1, 1), name=name, item=S.N(0.0))]
+    """Single-entry arrays of 0..3 axes: they stand for the number they hold (item 0, a non-integer, an integer)."""
+    # every number of axes with a non-integer entry; zero and integer entries on alternating axis counts
+    spec = [((), 0), ((), 2.5), ((1,), 2.5), ((1,), 2), ((1, 1), 0), ((1, 1), 2.5), ((1, 1, 1), 2.5), ((1, 1, 1), 2)]
+    return [S.Arr(shape, name=name, item=S.N(item)) for shape, item in spec]
 
 
 def big(x):
@@ -103,7 +105,18 @@ def a6(op, L, R, negpow=True):
     ANY = Expect('ANY', "don't-care")
     if isinstance(L, S.Foreign) or isinstance(R, S.Foreign):
         return ANY
-    if (isinstance(L, S.Arr) and L.size1) or (isinstance(R, S.Arr) and R.size1):
+    ls1, rs1 = isinstance(L, S.Arr) and L.size1, isinstance(R, S.Arr) and R.size1
+    if ls1 or rs1:
+        # a single-entry array (any number of axes) stands for the number it holds: the outcome is that of the number,
+        # in particular the other operand's shape is kept -- no leading length-1 axes may appear
+        if (ls1 and big(R)) or (rs1 and big(L)):
+            Ln = S.N(L.item.v) if ls1 else L
+            Rn = S.N(R.item.v) if rs1 else R
+            exp = a6(op, Ln, Rn, negpow)
+            if exp.kind != 'ANY':
+                exp.row = exp.row.replace('number', 'single-entry array') if 'number' in exp.row else exp.row + ' (single-entry array as the number)'
+                exp.why = exp.why + '; a one-element array counts as the number it holds and must not change the shape of the result'
+            return exp
         return ANY
     ln, rn = isinstance(L, S.N), isinstance(R, S.N)
     if op in ('add', 'sub'):
@@ -216,6 +229,20 @@ def events_text(outcome):
     return '; '.join(out) or 'no numpy primitive reached'
 
 
+def predicates_text(outcome):
+    """The helper predicates evaluated on the way, with their defining expressions (names the cooperating helper of a defect)."""
+    seen, out = set(), []
+    for e in outcome.trace.of('PRED'):
+        e = dict(e, args=[S.describe(x) for x in e['args']])
+        key = (e['name'], tuple(e['args']), e['value'])
+        if key in seen:
+            continue
+        seen.add(key)
+        out.append('%s(%s) is %s%s' % (e['name'], ', '.join(e['args']), e['value'],
+                                      ' [defined as `%s`]' % e['definition'] if e['definition'] else ''))
+    return '; '.join(out[-5:])
+
+
 def judge(exp, outcome):
     """None when the outcome agrees with the reference, else (found, explanation)."""
     if exp.kind == 'ANY':
@@ -272,7 +299,7 @@ def make_hook(flag_attr, negpow):
 
 
 def d1_table(ctx, idx, flag_attr):
-    r = ctx.rule('D1.TABLE', 'every operator method of MathArray realises the outcome table A6 for every operand-shape pair', floor=64)
+    r = ctx.rule('D1.TABLE', 'every operator method of MathArray realises the outcome table A6 for every operand-shape pair', floor=103)
     with r:
         ci = idx.cls(AQ)
         rp = idx.func(RP)
@@ -343,7 +370,9 @@ def d1_table(ctx, idx, flag_attr):
                 L, R, op, outcome, (found, text), flag = fail
                 pair = '%s %s %s%s' % (S.describe(L), SYM[op], S.describe(R), '' if op != 'pow' else
                                       ' with negative powers %s' % ('enabled' if flag else 'disabled'))
-                r.violation(construct, '%s: %s. Property: %s.' % (pair, text, exp.why), where_of(idx, outcome, loc),
+                preds = predicates_text(outcome)
+                r.violation(construct, '%s: %s. Property: %s.%s' % (pair, text, exp.why, ' Decided by: %s.' % preds if preds else ''),
+                            where_of(idx, outcome, loc),
                             expected=('a student-facing error' if exp.kind == 'RAISE' else
                                       ('number %s' % S.lf_show(exp.val) if exp.number else
                                        'array of shape (%s) with value %s' % (','.join(map(str, exp.shape)), S.lf_show(exp.val)))),
@@ -911,6 +940,11 @@ MUTANTS = [
            "    def __itruediv__(self, other):\n        self[:] = self.__truediv__(other)\n        return self", 'D1'),
     Mutant('inplace-sub-copyto', MA, "    def __isub__(self, other):\n        return self.__sub__(other)",
            "    def __isub__(self, other):\n        np.copyto(self, self.__sub__(other))\n        return self", 'D1'),
+    Mutant('seeded-C14e-tensor-powers-through-relaxed-squareness', MA, "        elif not self.ndim == 2:\n            raise ShapeError(\"Cannot raise a {self.shape_name} to powers.\".format(\n                self=self))\n\n        elif not is_square(self):",
+           "        elif is_vector(self):\n            raise ShapeError(\"Cannot raise a {self.shape_name} to powers.\".format(\n                self=self))\n\n        elif not (self.ndim >= 2 and self.shape[-2] == self.shape[-1]):", 'D1'),
+    Mutant('seeded-C14f-division-by-unconverted-single-entry-array', MA, "                return super_DIV(other.item())", "                return super_DIV(other)", 'D1'),
+    Mutant('mul-by-unconverted-single-entry-array', MA, "                return super_MUL(other.item())", "                return super_MUL(other)", 'D1'),
+    Mutant('add-unconverted-single-entry-zero', MA, "            return super_ADD(other.item())", "            return super_ADD(other)", 'D1'),
     Mutant('eval-product-cast-only-after-division', EXPR, "            # Need to cast np numerics as builtins here (in addition to during\n            # eval_node) because the result is changing shape\n            result = cast_np_numeric_as_builtin(result)",
            "            if op == '/':\n                result = cast_np_numeric_as_builtin(result)", 'D4'),
 ]
@@ -933,5 +967,9 @@ BENIGN = [
            "        integer_like = (isinstance(exponent, int) or\n                        isinstance(exponent, float) and exponent % 1 == 0)"),
     Benign('cast-list-branch-first', EXPR, "    if isinstance(obj, np.number):\n        return obj.item()\n    if map_across_lists and isinstance(obj, list):\n        return [item.item() if isinstance(item, np.number) else item\n                for item in obj]\n    return obj",
            "    if map_across_lists and isinstance(obj, list):\n        return [item.item() if isinstance(item, np.number) else item\n                for item in obj]\n    if isinstance(obj, np.number):\n        return obj.item()\n    return obj"),
+    Benign('is-square-on-last-two-axes-alone', MA, "    return array.ndim == 2 and array.shape[0] == array.shape[1]",
+           "    return array.ndim >= 2 and array.shape[-2] == array.shape[-1]"),
+    Benign('pow-guard-is-vector-alone', MA, "        elif not self.ndim == 2:", "        elif is_vector(self):"),
+    Benign('division-by-item-through-local', MA, "                return super_DIV(other.item())", "                divisor = other.item()\n                return super_DIV(divisor)"),
     Benign('mul-collapse-without-isinstance', MA, "                if isinstance(result, MathArray) and is_numberlike_array(result):", "                if is_numberlike_array(result):"),
 ]
